@@ -113,10 +113,10 @@ PROPS = {
         "assumptions": ["L instantiated with a concrete language tag (R6)"],
     },
     "C16": {
-        "units": [("source", r"get_char_column")],
+        "units": [("source", r"get_char_column"), "display"],
         "kani": [],
-        "decided": ["String::get_char_column(offset) == number of UTF-8 lead bytes between the previous line break and the offset, for every text and offset"],
-        "not_decided": ["display_context line slicing, JSON separators (write!/serde_json), charCount, MatchMerger"],
+        "decided": ["Node::display_context: the shown text is a contiguous run of WHOLE lines around the match (starts at a line start, ends at a line end), with exactly `before`/`after` extra lines unless the file ends first, and start_line is the line of its first byte", "String::get_char_column(offset) == number of UTF-8 lead bytes between the previous line break and the offset, for every text and offset"],
+        "not_decided": ["JSON separators / brackets (write!/serde_json), charCount (chars().count()), MatchMerger, path:line:text printing"],
         "assumptions": ["offset lies on a char boundary (tree-sitter node ranges)"],
     },
     "C18": {
